@@ -143,4 +143,9 @@ def analysed : Host → Bool
   | .method => true
   | .funcLit => true        -- since the fix of F3b (analyzer.go analyzeFuncLit); before it: false
 
+/-- cfg.go `matchCoversEnum`: the scrutinee is an enum with at least one variant and every variant is named by an arm
+    (variants and arm patterns by name, in declaration / source order; a duplicate arm changes nothing) -/
+def matchCoversEnum (variants arms : List String) : Bool :=
+  !variants.isEmpty && variants.all fun v => arms.contains v
+
 end FerretVerif.Cfg
